@@ -4,7 +4,7 @@ from ..rules import drivers, save
 META = {
     "title": "A loadable autosave always survives a crash during autosaving",
     "technique": "static analysis: abstract interpretation of a 3-file file-system model along every path of "
-                 "save_simulation (typestate of the advertised file after each file-system step)",
+                 "save_simulation (typestate of the advertised file after each file-system step); who-may-call of save_simulation, must-precede of pickle.dump, no file-system effect before load in resume",
     "design_ref": "DESIGN.md §5 C27, A.5",
     "explanation": "SAVE: each file of {advertised, .new, .bak, …} is abstracted to {absent, partial, old, new}; "
                    "open-for-write makes a file partial until its `with` block closes, os.rename/os.replace move "
